@@ -419,11 +419,12 @@ def path_condition(ctx, f, stmt: ast.AST):
                     from .terms import _retag, comp_loop_ids
 
                     it = ctx.X.at(f, cur.iter)
-                    if it[0] == "comp" and it[1] in ("list", "gen", "set") and len(it[3]) == 1 and it[3][0][2]:
+                    if it[0] == "comp" and it[1] in ("list", "gen", "set") and any(g_[2] for g_ in it[3]):
                         ids = comp_loop_ids(it)
                         if len(ids) == 1:
-                            for c_ in it[3][0][2]:
-                                out.append((_retag(c_, next(iter(ids)), cur.lineno), True))
+                            for g_ in it[3]:
+                                for c_ in g_[2]:
+                                    out.append((_retag(c_, next(iter(ids)), cur.lineno), True))
         if cur is f.node or isinstance(cur, (ast.FunctionDef, ast.AsyncFunctionDef, ast.Lambda, ast.ClassDef)):
             break
         child, cur = cur, parent(cur)
